@@ -1,0 +1,16 @@
+//go:build verif
+
+package plot
+
+// VerifData exports Plot.data(): the rows handed to the HTML template and their labels.
+func (p *Plot) VerifData() ([][]float64, []string, error) {
+	dp, labels, err := p.data()
+	if err != nil {
+		return nil, nil, err
+	}
+	rows := make([][]float64, len(dp))
+	for i := range dp {
+		rows[i] = dp[i]
+	}
+	return rows, labels, nil
+}
